@@ -162,6 +162,20 @@ pub struct Target {
     pub quoting: bool,
     pub conv: fn(&syn::Meta) -> R,
     pub direct: fn(&str) -> Option<String>,
+    /// the string hook called directly, and the literal hook on the same text as a string literal
+    pub hooks: fn(&str) -> (R, R),
+}
+
+fn hooks<T: S13>(text: &str) -> (R, R) {
+    let one = |r: Result<darling::Result<T>, String>| match r {
+        Ok(Ok(v)) => R::Ok(v.toks()),
+        Ok(Err(e)) => R::Err { spanned_inside: e.has_span(), msg: String::new() },
+        Err(p) => R::Panic(p),
+    };
+    let lit = syn::Lit::Str(syn::LitStr::new(text, proc_macro2::Span::call_site()));
+    let a = one(catch(std::panic::AssertUnwindSafe(|| T::from_string(text))));
+    let b = one(catch(std::panic::AssertUnwindSafe(|| T::from_value(&lit))));
+    (a, b)
 }
 
 fn conv<T: S13>(m: &syn::Meta) -> R {
@@ -185,7 +199,7 @@ fn conv<T: S13>(m: &syn::Meta) -> R {
 }
 
 macro_rules! tg {
-    ($v:ident; $($t:ty),* $(,)?) => { $( $v.push(Target { name: stringify!($t), quoting: <$t as S13>::QUOTING, conv: conv::<$t>, direct: <$t as S13>::direct }); )* };
+    ($v:ident; $($t:ty),* $(,)?) => { $( $v.push(Target { name: stringify!($t), quoting: <$t as S13>::QUOTING, conv: conv::<$t>, direct: <$t as S13>::direct, hooks: hooks::<$t> }); )* };
 }
 
 pub fn targets() -> Vec<Target> {
@@ -485,6 +499,60 @@ fn helpers_other_forms(t: &mut Tally) {
     vrt::spans::reset();
 }
 
+/// The string hook of every target on every text, in both loop orders (the same text handed to
+/// one target after another, and one target handed one text after another): what a conversion
+/// answers does not depend on what was converted before, it never panics, and a string hook that accepts agrees with the literal hook.
+fn string_hook_sweep(tgs: &[Target], frags: &[String], t: &mut Tally) {
+    let mut first: std::collections::HashMap<(usize, usize), R> = std::collections::HashMap::new();
+    for pass in 0..2 {
+        let order: Vec<(usize, usize)> = if pass == 0 {
+            (0..frags.len()).flat_map(|f| (0..tgs.len()).map(move |g| (g, f))).collect()
+        } else {
+            (0..tgs.len()).flat_map(|g| (0..frags.len()).rev().map(move |f| (g, f))).collect()
+        };
+        for (g, f) in order {
+            let (tg, text) = (&tgs[g], &frags[f]);
+            t.evaluations += 1;
+            t.hit("string_hook_checked");
+            let (a, b) = (tg.hooks)(text);
+            let mut bad = |msg: String, t: &mut Tally| t.violate(Violation { key: format!("C13 string-hook {} `{text}` :: {msg}", tg.name), what: format!("{}::from_string(`{text}`): {msg}", tg.name), case: json!({"engine": "string-hook"}), detail: json!({}) });
+            if let R::Panic(p) = &a {
+                bad(format!("panicked: {p}"), t);
+            }
+            if let R::Panic(p) = &b {
+                bad(format!("from_value on the same text panicked: {p}"), t);
+            }
+            let same = |x: &R, y: &R| matches!((x, y), (R::Ok(p), R::Ok(q)) if p == q) || matches!((x, y), (R::Err { .. }, R::Err { .. }));
+            // not every target has a string hook of its own; one that accepts agrees with the
+            // literal hook on the value
+            if tg.quoting && matches!(a, R::Ok(_)) && !matches!(b, R::Panic(_)) && !same(&a, &b) {
+                bad(format!("the string hook gives {a:?}, the same text as a string literal gives {b:?}"), t);
+            }
+            match first.get(&(g, f)) {
+                None => {
+                    first.insert((g, f), a);
+                }
+                Some(prev) if !same(prev, &a) => bad(format!("answered {prev:?} the first time and {a:?} later"), t),
+                _ => {}
+            }
+        }
+    }
+    vrt::spans::reset();
+}
+
+/// The panics of the string-hook sweep, for C07 (conversions never panic, whatever was converted
+/// before on the same thread).
+pub fn string_hook_panics() -> Tally {
+    let mut t = Tally::default();
+    string_hook_sweep(&targets(), &fragments(false), &mut t);
+    t.violations.retain(|v| v.what.contains("panicked"));
+    for v in &mut t.violations {
+        v.key = v.key.replacen("C13 ", "C07 ", 1);
+        v.case = json!({"engine": "string-hook"});
+    }
+    t
+}
+
 /// List-form targets: PathList, Vec<Lit*>, Meta.
 fn list_forms(t: &mut Tally) {
     // literal lists: members are kept as written, negative numbers included, in every position
@@ -570,7 +638,9 @@ pub fn main(args: &Args) {
         let c = crate::load_case(p);
         let tgs = targets();
         let mut t = Tally::default();
-        if let (Some(tn), Some(f)) = (c["target"].as_str(), c["fragment"].as_str()) {
+        if c["engine"] == "string-hook" {
+            string_hook_sweep(&tgs, &fragments(false), &mut t);
+        } else if let (Some(tn), Some(f)) = (c["target"].as_str(), c["fragment"].as_str()) {
             let tg = tgs.iter().find(|t| t.name == tn).unwrap();
             check(tg, f, &mut t);
         } else if let Some(f) = c["fragment"].as_str() {
@@ -595,6 +665,7 @@ pub fn main(args: &Args) {
     helpers(&frags, &mut t);
     helpers_unparseable(&mut t);
     helpers_other_forms(&mut t);
+    string_hook_sweep(&tgs, &frags, &mut t);
     list_forms(&mut t);
     rep.absorb(t);
     rep.set("targets", json!(tgs.len()));
